@@ -197,7 +197,8 @@ def apply_op(op, tree, U, objs, sh, typed, errors):
         errors.append(f"history op {op!r} raised {type(e).__name__}: {e}")
 
 
-def build_hist(desc):
+def build_hist(desc, probe=None):
+    """probe(tree, U, objs, sh, errors, k) is called before the k-th op of the history (query - mutate - query again)"""
     U = B.make_universe(desc["univ"])
     tree = B.new_tree(desc)
     typed = bool(desc.get("typed"))
@@ -244,7 +245,9 @@ def build_hist(desc):
             errors.append(f"building node {i} raised {type(e).__name__}: {e}")
             raise
         sh.new(i, p, earlier, did if did is not None else ("auto", i))
-    for op in desc.get("hist") or []:
+    for k, op in enumerate(desc.get("hist") or []):
+        if probe is not None:
+            probe(tree, U, objs, sh, errors, k)
         apply_op(op, tree, U, objs, sh, typed, errors)
     return tree, U, objs, sh, errors
 
@@ -330,6 +333,20 @@ def aimed(shape_nodes, n):
             yield [["remove_children", i]]
         for before in (None, True, 0, nsibs[p] - 1, ["n", i]):
             yield [["move", i, p, before]]
+        # moves to every OTHER parent (the tree included): depths, heights, counts, paths of both branches change
+        sub = set()
+
+        def collect(k):
+            sub.add(k)
+            for j, (q, _, _) in enumerate(flat):
+                if q == k:
+                    collect(j)
+
+        collect(i)
+        for j in [-1] + [j for j in range(len(flat)) if j not in sub]:
+            if j != p:
+                yield [["move", i, j, None]]
+                yield [["move", i, j, True]]
         # lose the siblings first, then move the only child onto its own parent
         if nsibs[p] > 1:
             others = [j for j, (q, _, _) in enumerate(flat) if q == p and j != i]
